@@ -254,7 +254,7 @@ def cases(draw: Any, prop: str, tier: str) -> dict:
             if phase != "creating":
                 script = nodes[i]["prepare" if phase == "preparing" else "start"]
                 pos = d.int(0, len(script))
-                script.insert(pos, {"op": "fail", "exc": f["exc"]})
+                script.insert(pos, {"op": "fail", "exc": f["exc"], **({"nested": True} if d.pct(20) else {})})
             case["fault"] = f
             case["fault_timeout"] = d.weighted([(10**6, 60), (None, 40)])  # with and without the startup watchdog
         elif mode == "timeout":
@@ -350,7 +350,10 @@ class Run:
                 types = [RTYPES[t] for t in st_["types"]]
                 if st_["how"] == "static":
                     obj = self.new_obj(types[0], ("static", path, phase, si))
-                    add_resource(obj, st_["name"], types)
+                    scratch = list(types)
+                    add_resource(obj, st_["name"], scratch)
+                    scratch.clear()
+                    scratch.append(RBurst)
                     self.ev("publish", path, types=st_["types"], name=st_["eff"], how="static", obj=id(obj))
                 else:
                     made: list[int] = []
@@ -368,7 +371,12 @@ class Run:
                             made.append(id(o))
                             return o
 
-                    add_resource_factory(fac, st_["name"], types=types)
+                    scratch = list(types)
+                    add_resource_factory(fac, st_["name"], types=scratch)
+                    # the publisher goes on using its list for something else: what was registered (and
+                    # announced to components that are already waiting) must not change with it
+                    scratch.clear()
+                    scratch.append(RBurst)
                     self.ev("publish", path, types=st_["types"], name=st_["eff"], how="factory", made=made)
             elif op == "subctx":
                 from asphalt.core import Context as _Ctx
@@ -441,6 +449,24 @@ class Run:
                 self.td_registered.append(mark)
                 self.svc_started.append(mark)
             elif op == "fail":
+                if st_.get("nested"):
+                    # the component fails because a component tree it starts itself (a plugin host) fails: the
+                    # error it raises is a ComponentStartError - an Exception like any other for the outer start-up
+                    from asphalt.core import Component, ComponentStartError, start_component
+
+                    inner_exc = INJ[st_["exc"]](f"injected in a tree started by {path} {phase}")
+
+                    class Plugin(Component):
+                        async def start(self) -> None:
+                            raise inner_exc
+
+                    try:
+                        await start_component(Plugin, timeout=None)
+                    except ComponentStartError as e:
+                        self.injected = e
+                        self.ev("fail", path, phase=phase)
+                        raise
+                    raise HarnessError("the nested start_component did not fail")
                 self.injected = INJ[st_["exc"]](f"injected in {path} {phase}")
                 self.ev("fail", path, phase=phase)
                 raise self.injected
@@ -487,7 +513,7 @@ class Run:
             run.instances.setdefault(node["id"], []).append(self)
             for ch in children:
                 if ch["declare"] in ("add", "both"):
-                    self.add_component(ch["alias"], run.classes[ch["id"]])
+                    self.add_component(ch["alias"], run.type_of(ch["id"]))
             if fault and fault["phase"] == "creating" and fault["node"] == node["id"]:
                 run.injected = INJ[fault["exc"]](f"injected creating {path}")
                 run.ev("fail", path, phase="creating")
@@ -529,6 +555,12 @@ class Run:
                 if self.harness_exc is None:
                     self.harness_exc = leaf
 
+    def type_of(self, node_id: int) -> Any:
+        """The child's type as it is handed to asphalt: the class, or (every third one) a reference string."""
+        if node_id % 3 == 1:
+            return f"{__name__}:_dyn_component_{node_id}"
+        return self.classes[node_id]
+
     def config(self, node: dict) -> dict:
         """External configuration for `node` (children declared by config or both)."""
         comps: dict[str, Any] = {}
@@ -537,7 +569,7 @@ class Run:
                 continue
             sub = self.config(ch)
             if ch["declare"] == "config":
-                comps[ch["alias"]] = {"type": self.classes[ch["id"]], **sub}
+                comps[ch["alias"]] = {"type": self.type_of(ch["id"]), **sub}
             elif ch["declare"] == "both":
                 comps[ch["alias"]] = dict(sub)  # (None would REPLACE the hard-coded configuration)
             elif sub:
@@ -550,6 +582,8 @@ class Run:
 
         for node in reversed(self.nodes):
             self.classes[node["id"]] = self.make_class(node)
+            # (also reachable as "module:attribute" references: a component type may be given as such a string)
+            globals()[f"_dyn_component_{node['id']}"] = self.classes[node["id"]]
         cfg = self.config(self.nodes[0])
         try:
             async with Context() as outer:
